@@ -133,6 +133,10 @@ func (e *Engine) globalVal(st *State, g *ssa.Global, t types.Type) Val {
 		v = e.fromLeaves(t, ts)
 		x := &Exec{e: e}
 		st.assume(x.wf(st, t, v))
+		if cx := e.curExec; cx != nil && cx.replayInfo != nil && e.mutableGlobals[g] && g.Pkg == cx.top.Pkg {
+			cx.replayInfo.Globals[g.Name()] = v
+			cx.replayInfo.GlobalT[g.Name()] = t
+		}
 	}
 	st.cells[ck] = v
 	return v
